@@ -151,6 +151,73 @@ def run_probes(ctx, real_extend, doc_items, canon, sort_dump, diff_path):
     return cases
 
 
+def run_lax_stream(ctx, sdl, real_extend, extension_doc, canon, diff_path, out_cases):
+    """Generated extension documents with parts that strict mode refuses and non-strict mode ignores: a redefinition of a
+    type / directive of the base schema, a `schema` block, an extension of an unknown type.  strict=True must reject (direct
+    oracle: a document that breaks a rule of strict extension is rejected with a library error); strict=False is compared
+    with the model AND with the result on the document without those parts (`extend_lax_is_strict_on_kept`)."""
+    import copy
+    n = ctx.n(12, 80)
+    for k in range(n):
+        if ctx.time_left() < 10:
+            ctx.notes.append("lax stream cut short at %d" % k)
+            break
+        D, items = sdl.gen_doc(ctx.rng, size=1, p_ext=ctx.rng.choice([0.0, 0.4]))
+        a_items = sdl.permute(ctx.rng, items)
+        a_text = sdl.render(a_items)
+        B, both = extension_doc(ctx.rng, D)
+        try:
+            expected = sdl.expected_dump(both)
+        except sdl.Invalid:
+            continue
+        junk = []
+        olds = [i for i in items if i["k"] == "type"]
+        if olds and ctx.rng.random() < 0.7:
+            junk.append(("redefinition", copy.deepcopy(ctx.rng.choice(olds))))
+        dirs = [i for i in items if i["k"] == "directive"]
+        if dirs and ctx.rng.random() < 0.5:
+            junk.append(("directive-redefinition", copy.deepcopy(ctx.rng.choice(dirs))))
+        if ctx.rng.random() < 0.5:
+            junk.append(("schema-block", {"k": "schema", "ops": [{"op": "query", "type": D["query"]}], "dirs": []}))
+        if ctx.rng.random() < 0.6 or not junk:
+            junk.append(("unknown-target", {"k": "ext", "kind": "object", "name": "Nope", "desc": None, "interfaces": [], "members": [], "values": [],
+                                            "input_fields": [], "dirs": [],
+                                            "fields": [{"name": "zz", "desc": None, "args": [], "type": {"k": "named", "n": "Int"}, "dirs": []}]}))
+        order = sdl.permute(ctx.rng, B)
+        for _, j in junk:
+            order.insert(ctx.rng.randint(0, len(order)), j)
+        labels = "+".join(sorted(l for l, _ in junk))
+        b_text = sdl.render(order)
+        ctx.stat("extend-lax-stream:" + labels)
+        ctx.nontrivial(("extend-lax", a_text, b_text))
+        # strict: rejected
+        real_s = real_extend(a_text, b_text, True)
+        ctx.count()
+        detail = {"base_sdl": a_text, "ext_sdl": b_text, "strict": True, "ignored_in_lax": labels}
+        if real_s[0] == "base":
+            continue
+        if real_s[0] == "ok":
+            ctx.fail("extend-lax-stream:invalid-accepted:strict:" + labels, "strict extend_schema accepts a document with " + labels, detail)
+        elif real_s[0] == "exc":
+            ctx.fail("extend-lax-stream:%s:strict:%s" % (real_s[1], labels), "strict extend_schema raises " + real_s[1], detail)
+        out_cases.append({"real": real_s, "detail": detail, "req": {"op": "extend", "doc": a_items, "ext": order, "strict": True}})
+        # lax: the ignored parts change nothing
+        real_l = real_extend(a_text, b_text, False)
+        ctx.count()
+        detail = {"base_sdl": a_text, "ext_sdl": b_text, "strict": False, "ignored_in_lax": labels, "expected": expected}
+        if real_l[0] == "exc":
+            ctx.fail("extend-lax-stream:%s:lax:%s" % (real_l[1], labels), "non-strict extend_schema raises " + real_l[1], detail)
+        elif real_l[0] == "rej":
+            ctx.fail("corr:extend-lax-stream:rejected:%s:%s" % (real_l[2], labels), "non-strict extend_schema rejects what it documents as ignored",
+                     detail, kind="correspondence")
+        elif canon(real_l[1]) != canon(expected):
+            pth = diff_path(expected, real_l[1])
+            ctx.fail("corr:extend-lax-stream:not-ignored:%s:%s" % (labels, pth), "non-strict extend_schema: the ignored parts change the result at " + pth,
+                     dict(detail, got=real_l[1]), kind="correspondence")
+        out_cases.append({"real": real_l, "detail": {"base_sdl": a_text, "ext_sdl": b_text, "strict": False, "ignored_in_lax": labels},
+                          "req": {"op": "extend", "doc": a_items, "ext": order, "strict": False}})
+
+
 def run_model(ctx, probe_cases, generated_cases, canon, sort_dump, diff_path):
     if not ctx.model_ok or not ctx.driver.available():
         return
